@@ -19,6 +19,8 @@ for sid, r in sorted(res.items()):
     for f in os.listdir(d):
         if os.path.isfile(os.path.join(d, f)):
             shutil.copy(os.path.join(d, f), dst)
+        elif os.path.isdir(os.path.join(d, f)) and f != "target":
+            shutil.copytree(os.path.join(d, f), os.path.join(dst, f), ignore=shutil.ignore_patterns("target", "Cargo.lock"))
     meta = json.load(open(os.path.join(dst, "meta.json")))
     meta["confirmed_by_framework_author"] = {k: v for k, v in r.items() if not k.endswith("_out") and k != "done"}
     meta["confirmation_cmd"] = "python3 tools/confirm_seed.py %s  (scratch worktree: demo on clean tree; git apply patch; cargo test --workspace --offline; demo again)" % sid
